@@ -306,6 +306,7 @@ pub fn exec(c: &mut Case, real: &mut BinArchive, model: &mut RefArchive, op: &Op
         | Op::DeletePointer(a) | Op::DeleteLabels(a) | Op::DeleteLabel(a, _) => *a,
     };
     let mut tell_after: Option<usize> = None;
+    let place = (addr ^ size ^ (width << 1)) % 3;
     let what = format!("{}{:?}", if stream { "stream " } else { "" }, op);
     let res: Option<Result<Val, String>> = c.lib(&what, || {
         let es = |e: mila::ArchiveError| e.to_string();
@@ -356,7 +357,24 @@ pub fn exec(c: &mut Case, real: &mut BinArchive, model: &mut RefArchive, op: &Op
                 Op::Read(..) | Op::ReadBytes(..) | Op::ReadString(_) | Op::ReadPointer(_) | Op::ReadLabels(_) | Op::ReadLabelIdx(..) | Op::ReadCString(_)
             );
             if is_read {
-                let mut r = BinArchiveReader::new(real, addr);
+                // three ways of putting the cursor at `addr`: constructor, seek, seek + skip
+                let mut r = match place {
+                    0 => BinArchiveReader::new(real, addr),
+                    1 => {
+                        let mut r = BinArchiveReader::new(real, size / 2);
+                        r.seek(addr);
+                        r
+                    }
+                    _ => {
+                        let mut r = BinArchiveReader::new(real, 7);
+                        r.seek(addr / 2);
+                        r.skip(addr - addr / 2);
+                        r
+                    }
+                };
+                if r.tell() != addr || r.archive().size() != size {
+                    return Err(format!("PLACEMENT: reader cursor {} (wanted {}), archive size {}", r.tell(), addr, r.archive().size()));
+                }
                 let out = match op {
                     Op::Read(acc, _) => match acc {
                         Acc::U8 => r.read_u8().map(|v| Val::Bits(v as u32)).map_err(es),
@@ -378,7 +396,23 @@ pub fn exec(c: &mut Case, real: &mut BinArchive, model: &mut RefArchive, op: &Op
                 tell_after = Some(r.tell());
                 out
             } else {
-                let mut w = BinArchiveWriter::new(real, addr);
+                let mut w = match place {
+                    0 => BinArchiveWriter::new(real, addr),
+                    1 => {
+                        let mut w = BinArchiveWriter::new(real, size / 2);
+                        w.seek(addr);
+                        w
+                    }
+                    _ => {
+                        let mut w = BinArchiveWriter::new(real, 7);
+                        w.seek(addr / 2);
+                        w.skip(addr - addr / 2);
+                        w
+                    }
+                };
+                if w.tell() != addr || w.length() != size || w.size() != size {
+                    return Err(format!("PLACEMENT: writer cursor {} (wanted {}), length {} size {}", w.tell(), addr, w.length(), w.size()));
+                }
                 let out = match op {
                     Op::Write(acc, _, v) => match acc {
                         Acc::U8 => w.write_u8(*v as u8),
@@ -406,6 +440,12 @@ pub fn exec(c: &mut Case, real: &mut BinArchive, model: &mut RefArchive, op: &Op
         None => return false, // panic already reported
         Some(r) => r,
     };
+    if let Err(e) = &res {
+        if e.starts_with("PLACEMENT:") {
+            c.fail("cursor", "cursor_placement", format!("{} on archive of size {}: {}", what, size, e));
+            return false;
+        }
+    }
     let cls = addr_class(addr, width.max(1), size);
     let opname = match op {
         Op::Read(a, _) => format!("read_{:?}", a),
